@@ -20,6 +20,8 @@ CLAIMED = {
              note='A-RE-field (anchored field regexes end at the scanner end; validated exhaustively to length 7/9), A-PY string model, codecs (A-IO); round trip itself is bounded, not proved'),
  'C11': dict(cat='proof', ref='5/C11', text='extract_next_field and split_quoted_str are proved, for every line and single-character delimiter, to produce exactly the fields, next index and warning flag of the dialect spec (quoted iff quoted form followed by delimiter/EOL; other fields extend to the next delimiter; warning iff an unquoted field contains a quote); the scanner formulation of the spec is validated against the declarative sentence exhaustively to length 7/9 (bounded)',
              note='A-RE-field assumed contract of the two field regexes (bounded validation), A-PY string model; fast path (no quote) proved equal to plain split, its agreement with the dialect is bounded; whitespace policy regex: bounded'),
+ 'C12': dict(cat='proof', ref='5/C12', text='line extraction is proved as a function of the remaining content rest = buffer ++ unread of an abstract stream whose read(n) may return ANY non-empty prefix of length <= n: extract_line_from_data, _get_row_from_buffer (CR look-ahead across a read boundary), _read_until_found (no content lost; exhausted only at the real end), get_row_simple (first line LF|CR|CRLF, unterminated last line, BOM on the very first line only, decode errors -> IO-handling error) and get_row_rfc (record continues until quotes balance), with induction lemmas on first_nl; comment skipping / header / field splitting per record and byte-level decoding are covered by the bounded stand-in (all partitions of texts <= 4/7)',
+             note='A-IO stream contract (short reads allowed; io.TextIOWrapper incremental decoding assumed), A-RE-newline (validated boundedly), A-PY string model'),
  'C17': dict(cat='proof', ref='5/C17', text='like_to_regex is proved for every pattern to produce ^ tok(c1)..tok(cn) $ (loop invariant + per-character map of re.escape), and LIKE() is proved to return the match of exactly that regex with a cache that cannot mix patterns; that the token regex implements SQL LIKE in Python re is an assumption validated exhaustively (patterns <=3/4, texts <=2/3 over the 14-character alphabet)',
              note='A-RE-escape (re.escape is a per-character map), A-RE (Python re semantics of the token regex): bounded validation only'),
 }
